@@ -79,7 +79,8 @@ def observe_problem(P):
     fl = {}
     for f in P.initial_state_fluents.values():
         t = sexp.read(f.state_representation)
-        fl[tuple(t[1])] = Fraction(t[2])
+        # the value is read from the public attribute, not from the printed text (printing is what C09 / C14 judge)
+        fl[tuple(t[1])] = Fraction(repr(float(f.value)))
     goals = [tuple(sexp.read(g.untyped_representation)) for g in P.goal_state_predicates]
     numgoals = sorted(sexp.dumps(norm(sexp.read(e.to_pddl()))) for e in P.goal_state_fluents)
     return {"name": P.name, "objects": objs, "atoms": atoms, "fluents": fl, "goals": goals, "numgoals": numgoals}
